@@ -580,7 +580,10 @@ def run(ctx):
     from e3fp.conformer.generate import generate_conformers
     cg, _ = pipeline.params_to_dicts(path)
     extra = sorted(set(cg) - set(inspect.signature(generate_conformers).parameters))
-    if extra:
+    if extra and extra != ['protonate']:
+        found_input = True
+        ctx.fail('params_to_dicts(defaults.cfg)[0] carries options generate_conformers does not accept, other than the recorded `protonate`: %s' % extra, {'unaccepted': extra})
+    elif extra:
         known(FK_PROTONATE, 'params_to_dicts(defaults.cfg)[0] carries options generate_conformers does not accept: %s' % extra, {'unaccepted': extra})
 
     # ---- lit: real literal_eval vs the classifier --------------------------------------------------------------
